@@ -7,6 +7,7 @@
 
 #include <cinttypes>
 #include <memory>
+#include <utility>
 
 #include "common/families.hpp"
 #include "common/refjson.hpp"
@@ -246,6 +247,45 @@ struct CmpEnv {
   Guarded a{2}, b{2};
 };
 static int sgn(int x) { return (x > 0) - (x < 0); }
+
+// ------------------------------------------------------------------ C14 / M9: lengths that are COMPILE-TIME constants
+// (FindMember("literal", 3): the compiler may select special code for a constant length; lengths enumerated in a run-time
+// loop never reach it)
+template <size_t N>
+static void m9_one(vr::Ctx& ctx) {
+  char key[64];
+  for (size_t i = 0; i < sizeof key; i++) key[i] = (char)('a' + (i * 5) % 23);
+  for (int exact = 0; exact < 2; exact++) {
+    Document doc;
+    auto& al = doc.GetAllocator();
+    doc.SetObject();
+    // N near misses (one byte changed at every position) in front of the exact name, then a longer and a shorter name
+    for (size_t i = 0; i < N; i++) {
+      std::string nm(key, N);
+      nm[i] = (char)(nm[i] ^ 0x01);
+      doc.AddMember(nm, Node((int64_t)i), al, true);
+    }
+    if (exact) doc.AddMember(std::string(key, N), Node((int64_t)1000), al, true);
+    doc.AddMember(std::string(key, N + 1), Node((int64_t)2000), al, true);
+    if (N) doc.AddMember(std::string(key, N - 1), Node((int64_t)3000), al, true);
+    ctx.eval();
+    auto it = doc.FindMember(key, N);  // N is a constant expression here
+    int got = it == doc.MemberEnd() ? -1 : (int)(it - doc.MemberBegin());
+    int want = exact ? (int)N : -1;
+    if (N == 0 && !exact) want = -1;
+    if (got != want)
+      ctx.violation("findmember", "findmember_constant_length", std::string(key, N), "FindMember(ptr, %zu) with the length a compile-time constant returned member %d, expected %d (near misses differ in exactly one byte)", N, got, want);
+    auto it2 = doc.FindMember(StringView(key, N));
+    int got2 = it2 == doc.MemberEnd() ? -1 : (int)(it2 - doc.MemberBegin());
+    if (got2 != want) ctx.violation("findmember", "findmember_constant_length", std::string(key, N), "FindMember(StringView(ptr, %zu)) with a constant length returned member %d, expected %d", N, got2, want);
+  }
+}
+template <size_t... I>
+static void m9_dispatch(size_t n, vr::Ctx& ctx, std::index_sequence<I...>) {
+  using Fn = void (*)(vr::Ctx&);
+  static const Fn table[] = {&m9_one<I>...};
+  table[n](ctx);
+}
 
 int main(int argc, char** argv) {
   vr::Args args = vr::parse_args(argc, argv);
@@ -500,14 +540,16 @@ int main(int argc, char** argv) {
       LN.push_back(1100);
       for (uint32_t n : LN)
         for (uint32_t p = 0; p < n; p++) Q4.push_back({n, p});
-      for (uint32_t b : {16384u, 65536u})
-        for (int d = -1; d <= 1; d++) {
-          uint32_t n = b + d;
-          for (uint32_t p = 0; p < n; p++) {
-            uint32_t m = p % 128;
-            if (p < 300 || p + 300 >= n || m <= 1 || (m >= 31 && m <= 33) || (m >= 63 && m <= 65) || (m >= 95 && m <= 97) || m == 127) Q4.push_back({n, p});
+      // (the 16 KiB / 64 KiB strings are left to the production builds, whose guard pages are as strict as ASan's red zones)
+      if (!HAVE_ASAN)
+        for (uint32_t b : {16384u, 65536u})
+          for (int d = -1; d <= 1; d++) {
+            uint32_t n = b + d;
+            for (uint32_t p = 0; p < n; p++) {
+              uint32_t m = p % 128;
+              if (p < 300 || p + 300 >= n || m <= 1 || (m >= 31 && m <= 33) || (m >= 63 && m <= 65) || (m >= 95 && m <= 97) || m == 127) Q4.push_back({n, p});
+            }
           }
-        }
     }
     static const uint8_t S4[] = {'\\', '"', 0x1f, 0x00};
     vr::Family q4;
@@ -681,9 +723,15 @@ int main(int argc, char** argv) {
     m8.group = "M8";
     m8.chunk = 8;
     m8.rule = "objects whose 5 member names are slices [s, s+l) of one 48-byte buffer of distinct bytes (three of them start at the same address s0 with lengths l0 < l1 < l2, for every s0 in 0..15 and l0 in 1..16), added as constant or copied keys; every slice [s', s'+l') with s' in {s0, s0+1, other start} and l' in 0..l2+2 is looked up through FindMember(view), FindMember(ptr,len), HasMember, operator[] and the node's own name views, with and without the lookup map: found exactly when start and length both agree";
-    fams = {m1, m2, m3, m4, m5, m6, m7, m8};
+    vr::Family m9;
+    m9.name = "M9_constant_lengths";
+    m9.count = 49;
+    m9.group = "M9";
+    m9.chunk = 4;
+    m9.rule = "FindMember(ptr, N) and FindMember(StringView(ptr, N)) instantiated with N as a COMPILE-TIME constant for every N in 0..48: objects holding N near misses (one byte changed at each position) before the exact name, a longer and a shorter name, with and without the exact name";
+    fams = {m1, m2, m3, m4, m5, m6, m7, m8, m9};
 #ifdef SONIC_DYNAMIC_DISPATCH
-    fams = {m3, m5, m8};
+    fams = {m3, m5, m8, m9};
 #endif
     check = [&, NL, NE, NP](const vr::Family& f, uint64_t idx, vr::Ctx& ctx) {
       auto build = [&](unsigned len, unsigned diff, unsigned pi, uint8_t* a, uint8_t* b) {
@@ -848,6 +896,12 @@ int main(int argc, char** argv) {
         (void)idx;
         ctx.skip();
 #endif
+        return;
+      }
+      if (f.name[1] == '9') {
+        ctx.nontriv();
+        if (ctx.want_sample) ctx.sample("N=" + std::to_string(idx));
+        m9_dispatch((size_t)idx, ctx, std::make_index_sequence<49>());
         return;
       }
       if (f.name[1] == '8') {
